@@ -20,8 +20,8 @@ IC == INSTANCE IndexContainers WITH Zero <- WZero, Mul <- WMulSmall, Fits32 <- W
 VARIABLES kind,     \* which container this behaviour is about
           ic,       \* its implementation-shaped state
           pushed,   \* ghost: the sequence it must denote
-          ghost,    \* ghost: number of invisible ops taken (part of the view so that
-                    \*        histories continue after them)
+          ghost,    \* ghost: kinds of the invisible ops taken (part of the view so that
+                    \*        histories continue after each kind of them)
           path,     \* history of operations (hidden by the VIEW)
           res       \* result of the last operation (hidden by the VIEW)
 
@@ -41,7 +41,7 @@ InitOf(k) == IF k = "stride" THEN IC!StrideInit ELSE IC!ICInit(k)
 Init == /\ kind \in Kinds
         /\ ic = InitOf(kind)
         /\ pushed = <<>>
-        /\ ghost = 0
+        /\ ghost = <<>>
         /\ path = <<>>
         /\ res = [ok |-> TRUE]
 
@@ -75,10 +75,10 @@ Clear ==
 \* reserve(n), clone, clone_from into a dirty target, serde round trip:
 \* none may change what the container denotes nor how it continues.
 Invisible(o) ==
-  /\ ghost < MaxGhost
+  /\ Len(ghost) < MaxGhost
   /\ o = "reserve" => kind # "stride"
   /\ path' = Append(path, [op |-> o])
-  /\ ghost' = ghost + 1
+  /\ ghost' = Append(ghost, o)
   /\ res' = [ok |-> TRUE]
   /\ UNCHANGED <<kind, ic, pushed>>
 
